@@ -129,7 +129,7 @@ static int prog_parse(prog_t * p, const char * s) {
 
 /* all program strings within the bounds, in a fixed (lexicographic by grammar alternative) order */
 static char (*PROGS)[48]; static long NPROGS, PROGS_CAP;
-static struct { int maxt, maxsec, maxdepth, maxcreate; } GB;
+static struct { int maxt, maxsec, maxdepth, maxcreate, task_other_maxt; } GB;
 typedef struct { int kind, others, creates, depth; } gframe_t;
 static gframe_t g_st[16]; static int g_sp, g_ntasks, g_nsecs; static char g_s[64];
 static int g_task_frame(void) { for (int i = g_sp - 1; i >= 0; i--) if (g_st[i].kind == 0) return i; return 0; }
@@ -151,9 +151,24 @@ static void g_rec(int n) {
     { gframe_t save = *f; g_sp--; g_s[n] = ']'; g_rec(n + 1); g_st[g_sp++] = save; }
   }
 }
-static void gen_programs(int maxt, int maxsec) {
-  GB.maxt = maxt; GB.maxsec = maxsec; GB.maxdepth = 2; GB.maxcreate = 2;
+/* task_other_maxt: an `other' directly in a task body (outside every section) only in programs of at most that many tasks */
+static void gen_programs(int maxt, int maxsec, int task_other_maxt) {
+  GB.maxt = maxt; GB.maxsec = maxsec; GB.maxdepth = 2; GB.maxcreate = 2; GB.task_other_maxt = task_other_maxt;
   NPROGS = 0; g_sp = 0; g_ntasks = 1; g_nsecs = 0; g_st[g_sp++] = (gframe_t){ 0, 0, 0, 0 }; g_rec(0);
+  long k = 0;
+  for (long i = 0; i < NPROGS; i++) {
+    int nt = 1, depth = 0, bare = 0;                 /* depth: open sections of the innermost task */
+    int stack[16], sp = 0;
+    for (const char * c = PROGS[i]; *c; c++) {
+      if (*c == '[') depth++; else if (*c == ']') depth--;
+      else if (*c == '{') { nt++; stack[sp++] = depth; depth = 0; } else if (*c == '}') depth = stack[--sp];
+      else if (*c == 'o' && depth == 0) bare = 1;
+    }
+    if (bare && nt > task_other_maxt) continue;
+    if (k != i) strcpy(PROGS[k], PROGS[i]);
+    k++;
+  }
+  NPROGS = k;
 }
 
 /* ------------------------------------------------------------------ timing: interval lengths from {1,3,10} and the
@@ -193,7 +208,15 @@ enum { TS_NEW, TS_RUN, TS_DEQUE, TS_WAIT, TS_DONE };
 static const prog_t * DP; static timing_t DT; static int DW, DIMP, DMAXSTEAL; static sched_t * DS;
 static struct { int pc, worker, state, sline; long t0; } dts[MAXT];
 static struct { int cur; long tnext; int dq[MAXT], ndq; } dws[NWORKERS_MAX];
-static int d_out[MAXSEC], d_waiter[MAXSEC], d_serial, d_steals, d_preflen, d_err, d_done;
+static int d_out[MAXSEC], d_waiter[MAXSEC], d_serial, d_steals, d_preflen, d_err, d_done, d_used[NWORKERS_MAX];
+/* the idle workers that may take work from (or a task coming back on) worker `from': every idle worker that has
+   already run something, but of the workers that never ran anything only the lowest-numbered one (they are
+   interchangeable: the recorder treats worker ids as array indices and nothing else) */
+static int d_idle_set(int from, int * idle) {
+  int ni = 0, fresh = 0;
+  for (int x = 0; x < DW; x++) if (x != from && dws[x].cur < 0) { if (!d_used[x]) { if (fresh) continue; fresh = 1; } idle[ni++] = x; }
+  return ni;
+}
 
 static int d_choose(int n) {
   if (n <= 1) return 0;
@@ -218,7 +241,7 @@ static void d_begin_iv(int call, int task, int w, long t) {
   int line = 1000 + d_serial++;
   d_emit(call, w, task, line, -1, t);
   if (dws[w].cur >= 0) d_err = 1;                       /* a worker does one thing at a time */
-  dts[task].worker = w; dts[task].t0 = t; dts[task].sline = line; dts[task].state = TS_RUN;
+  dts[task].worker = w; dts[task].t0 = t; dts[task].sline = line; dts[task].state = TS_RUN; d_used[w] = 1;
   dws[w].cur = task; dws[w].tnext = t + d_next_len(task);
 }
 static void d_note_steal(int task, char how, int id, int thief) {
@@ -253,8 +276,7 @@ static void d_free(int w, long t) {
 }
 /* worker v just pushed a continuation at time t: an idle worker may take the oldest entry of v's deque */
 static void d_offer(int v, long t) {
-  int idle[NWORKERS_MAX], ni = 0;
-  for (int x = 0; x < DW; x++) if (x != v && dws[x].cur < 0) idle[ni++] = x;
+  int idle[NWORKERS_MAX], ni = d_idle_set(v, idle);
   if (ni && dws[v].ndq > 0 && d_steals < DMAXSTEAL) {
     int c = d_choose(1 + ni);
     if (c) {
@@ -291,8 +313,7 @@ static void d_fire(int w) {
   }
   case OP_OTHER: {
     d_emit(C_ENTER_OTHER, w, T, 100 + op.id, -1, t);
-    int idle[NWORKERS_MAX], ni = 0, x = w;
-    for (int y = 0; y < DW; y++) if (y != w && dws[y].cur < 0) idle[ni++] = y;
+    int idle[NWORKERS_MAX], x = w, ni = d_idle_set(w, idle);
     if (ni && d_steals < DMAXSTEAL) { int c = d_choose(1 + ni); if (c) { x = idle[c - 1]; d_note_steal(T, 'o', op.id, x); } }
     dws[w].cur = -1;
     d_begin_iv(C_RET_OTHER, T, x, t + DT.gap);
@@ -324,7 +345,7 @@ static int sim_run(const prog_t * p, timing_t tm, int W, int imp, int maxsteal, 
   DP = p; DT = tm; DW = W; DIMP = imp; DMAXSTEAL = maxsteal; DS = s; d_preflen = preflen;
   s->W = W; s->nsc = 0; s->niv = 0; s->nch = 0; s->nsteal = 0; s->steals[0] = 0;
   d_serial = 0; d_steals = 0; d_err = 0; d_done = 0;
-  memset(dts, 0, sizeof dts);
+  memset(dts, 0, sizeof dts); memset(d_used, 0, sizeof d_used);
   for (int w = 0; w < NWORKERS_MAX; w++) { dws[w].cur = -1; dws[w].ndq = 0; dws[w].tnext = 0; }
   for (int i = 0; i < MAXSEC; i++) { d_out[i] = 0; d_waiter[i] = -1; }
   d_begin_iv(C_START, 0, 0, T0);
@@ -629,7 +650,7 @@ static void enumerate_program(int pi, const pos_t * rs) {
   if (!prog_parse(&p, PROGS[pi])) { SLOT->engine_error = 1; return; }
   int resuming = rs != NULL;
   for (int tmi = resuming ? rs->tmi : 0; tmi < NTIMINGS; tmi++)
-    for (int imp = resuming ? rs->imp : 0; imp < (p.nimplicit ? 2 : 1); imp++)
+    for (int imp = resuming ? rs->imp : 0; imp < (p.nimplicit && tmi == 0 ? 2 : 1); imp++)    /* implicit opening: with the first timing only */
       for (int W = resuming ? rs->W : 1; W <= MAXW; W++) {
 	int preflen = 0;
 	if (resuming) { memcpy(s.ch, rs->ch, sizeof s.ch); preflen = rs->nch; }
@@ -727,12 +748,11 @@ static void set_tier(int thorough, int nfmax_quick, int nfmax_thorough) {
   if (!thorough) {
     MAXW = 2; MAXSTEAL = 2; NFMAX = nfmax_quick;
     TIMINGS[NTIMINGS++] = (timing_t){ 0, 1 }; TIMINGS[NTIMINGS++] = (timing_t){ 1, 0 };
-    gen_programs(3, 3);
+    gen_programs(3, 3, 3);
   } else {
     MAXW = 3; MAXSTEAL = 2; NFMAX = nfmax_thorough;
-    TIMINGS[NTIMINGS++] = (timing_t){ 0, 1 }; TIMINGS[NTIMINGS++] = (timing_t){ 1, 0 }; TIMINGS[NTIMINGS++] = (timing_t){ 2, 1 };
-    TIMINGS[NTIMINGS++] = (timing_t){ 3, 0 }; TIMINGS[NTIMINGS++] = (timing_t){ 4, 0 }; TIMINGS[NTIMINGS++] = (timing_t){ 5, 1 };
-    gen_programs(4, 3);
+    TIMINGS[NTIMINGS++] = (timing_t){ 0, 1 }; TIMINGS[NTIMINGS++] = (timing_t){ 1, 0 }; TIMINGS[NTIMINGS++] = (timing_t){ 4, 1 };
+    gen_programs(4, 3, 3);
   }
   make_opts(thorough);
 }
@@ -819,7 +839,7 @@ static int dag_main(int argc, char ** argv, const char * property, const char * 
     for (int i = 0; i < nt; i++) order[no++] = tmp[i];
   }
   for (int i = 0; i < no; i++) sq_found(order[i]->key, order[i]->args, "%s", order[i]->msg);
-  sq_detail("%s; %ld programs (<= %d tasks, <= %d sections in all, nesting <= 2, <= 2 creates per section, <= 1 other per task) x %d timing(s) x explicit/implicit section opening x W=1..%d: %ld schedules (<= %d steals/migrations), x %d option settings",
+  sq_detail("%s; %ld programs (<= %d tasks, <= %d sections in all, nesting <= 2, <= 2 creates per section, <= 1 other per task) x %d timing(s) (+ implicit section opening with the first) x W=1..%d: %ld schedules (<= %d steals/migrations), x %d option settings",
 	    what, NPROGS, GB.maxt, GB.maxsec, NTIMINGS, MAXW, schedules, MAXSTEAL, NOPTS);
   if (NFMAX > 1) sq_detail(" x 1..%d file names", NFMAX);
   sq_detail(" = %ld cases on %d processes; %ld trapped aborts, %ld process crashes; disagreement classes:", SQ.states, NPROC, traps, crashes);
